@@ -2,9 +2,9 @@
 import runner_props
 
 PROP = "C11"
-LEAN_MODULES = ["PamsProps.C11", "PamsProps.SimE2E"]
-NAMESPACES = ["Pams.C11", "Pams.C11"]
-DRIVERS = ["Runner", "Sim"]
+LEAN_MODULES = ["PamsProps.C11", "PamsProps.SimE2E", "PamsProps.SrcRunner"]
+NAMESPACES = ["Pams.C11", "Pams.C11", "Pams.C11"]
+DRIVERS = ["Runner", "Sim", "PyRun"]
 TRUSTED = [
     "scheduler model treats markets, agents, user events and random draws as oracles (tape recorded from the real run through public extension points: simulator_class, registered agent/market/event classes, prng subclass, Logger subclass)",
     "user-written agents/events are assumed not to reach into private state of sessions/markets (the built-in TradingHaltRule, which does, is modelled: its flag switches are part of the tape)",
@@ -14,7 +14,10 @@ ASSUMPTIONS = ["CPython semantics of list iteration / exceptions", "recording su
 
 
 def run(ctx, model_available=True):
-    return runner_props.run_runner_property(ctx, PROP, model_available=model_available)
+    res = runner_props.run_runner_property(ctx, PROP, model_available=model_available)
+    # (T2) the translated source of the scheduler under the mini-Python semantics, against CPython
+    import py_checks
+    return py_checks.merge(res, ctx, ["runner"], n_each=150, model_available=model_available)
 
 
 def search(ctx, res):
